@@ -177,7 +177,7 @@ def _path_incs(mm, start: Node, stop: Node, nit: str, no_reenter: bool = False) 
     return res
 
 
-@rule("SIB", min_instances=8)
+@rule("SIB", min_instances=6)
 def rule_sib(ctx: Ctx) -> List[Ob]:
     """sibling constructions agree: the callback state and the final result bind the same
     keywords to the same expressions (x may be a copy, nit is NITOFF's business), and every
@@ -241,6 +241,19 @@ def _diff_of(e: ast.expr) -> Optional[Tuple[str, str]]:
 def _encoder_ok(c: ast.Call, mm) -> Tuple[bool, str]:
     if len(c.args) != 2 or c.keywords:
         return False, "operator not built from two positional arrays"
+    if mm is not None and all(isinstance(a, ast.Name) for a in c.args):
+        # (sk, yk) bound per branch: every pair of definitions made in the same block must be a valid encoder
+        n = mm.cfg.node_of(c)
+        da = sorted([(d.line, v) for d, v, _ in mm.rd.value_exprs(n, c.args[0].id) if v is not None], key=lambda t: t[0])
+        db = sorted([(d.line, v) for d, v, _ in mm.rd.value_exprs(n, c.args[1].id) if v is not None], key=lambda t: t[0])
+        if da and len(da) == len(db):
+            whys = []
+            for (la, va), (lb_, vb) in zip(da, db):
+                ok1, w1 = _encoder_ok(ast.Call(func=c.func, args=[va, vb], keywords=[]), mm)
+                whys.append(w1)
+                if not ok1:
+                    return False, f"definitions at lines {la}/{lb_}: {w1}"
+            return True, " | ".join(whys)
     da, db = _diff_of(c.args[0]), _diff_of(c.args[1])
     if da and db:
         X, G = (mm.X, mm.G) if mm is not None else ("X", "G")
@@ -307,7 +320,7 @@ def rule_cbuse(ctx: Ctx) -> List[Ob]:
 
 
 # ------------------------------------------------------------------ C05
-@rule("COH", min_instances=4)
+@rule("COH", min_instances=3)
 def rule_coh(ctx: Ctx) -> List[Ob]:
     """typestate of (x, fun, jac): a result or callback state is built only where fun is the
     wrapper's value and jac the wrapper's gradient for the very x being reported -- no rebinding
@@ -329,6 +342,16 @@ def rule_coh(ctx: Ctx) -> List[Ob]:
         return isinstance(v, ast.BinOp) and isinstance(v.op, ast.Mult) and \
             {src(v.left), src(v.right)} == {name, f"{sf}.scaling_factor"}
 
+    def coherent_src(v, kind):
+        """is v a value that is coherent with x by construction? kind: 'f' or 'g'"""
+        if isinstance(v, ast.IfExp):
+            return coherent_src(v.body, kind) and coherent_src(v.orelse, kind)
+        if isinstance(v, ast.Call):
+            d = dotted(v.func) or ""
+            okd = (d in (f"{sf}.fun", f"{sf}.fun_and_grad") if kind == "f" else d in (f"{sf}.grad", f"{sf}.fun_and_grad"))
+            return okd and bool(v.args) and src(v.args[0]) == xn
+        return v is not None and src(v).startswith("checkpoint.") and src(v).endswith(".fun" if kind == "f" else ".jac")
+
     def transfer(n: Node, st):
         FX, GX = st
         s = n.ast
@@ -340,6 +363,9 @@ def rule_coh(ctx: Ctx) -> List[Ob]:
             if k == xn:
                 newF = newG = False
             elif k == fn_:
+                if isinstance(v, ast.IfExp) and coherent_src(v, "f"):
+                    newF = True
+                    continue
                 if isinstance(v, ast.Call):
                     d = dotted(v.func) or ""
                     if d in (f"{sf}.fun",) and v.args and src(v.args[0]) == xn:
@@ -359,6 +385,9 @@ def rule_coh(ctx: Ctx) -> List[Ob]:
                     continue
                 newF = False
             elif k == gn:
+                if isinstance(v, ast.IfExp) and coherent_src(v, "g"):
+                    newG = True
+                    continue
                 if isinstance(v, ast.Call):
                     d = dotted(v.func) or ""
                     if d in (f"{sf}.grad", f"{sf}.fun_and_grad") and v.args and src(v.args[0]) == xn:
@@ -402,6 +431,11 @@ def rule_coh(ctx: Ctx) -> List[Ob]:
             if not GX:
                 bad.append(f"{gn} is not known to be the wrapper's gradient at {xn} here")
         else:
+            if isinstance(kj, ast.Name):
+                # a local that only holds the placeholder / the checkpoint's gradient on the early-return paths
+                jdefs = [src(v2) for _, v2, _ in mm.rd.value_exprs(n, kj.id) if v2 is not None]
+                if jdefs and all(j.startswith("checkpoint.") or j.startswith(mm.G + "[") for j in jdefs):
+                    kj = ast.parse("checkpoint.jac" if all(j.startswith("checkpoint.") for j in jdefs) else jdefs[0], mode="eval").body
             # carve-out: no gradient has been computed on any path to this construction
             evals = [m for m in cfg.nodes if any((dotted(cc.func) or "") in (f"{sf}.grad", f"{sf}.fun_and_grad")
                                                   for cc in node_calls(m))]
@@ -416,7 +450,7 @@ def rule_coh(ctx: Ctx) -> List[Ob]:
     return obs
 
 
-@rule("CNT", min_instances=10)
+@rule("CNT", min_instances=6)
 def rule_cnt(ctx: Ctx) -> List[Ob]:
     """counters are reported from, and restored into, the wrapper only: every nfev=/njev= of a
     result reads sf.nfev / sf.ngev, the only writes of these counters outside the wrapper are the
@@ -473,7 +507,7 @@ def _cls(mm, c) -> str:
     return f"early{[r for r in mm.results].index(c)}"
 
 
-@rule("FIELDS", min_instances=10)
+@rule("FIELDS", min_instances=9)
 def rule_fields(ctx: Ctx) -> List[Ob]:
     """what a result carries is what a restart reads: every attribute of the checkpoint read by
     the solver is a keyword of every result construction, the solver state {x, fun, jac, nfev,
@@ -508,10 +542,13 @@ def rule_fields(ctx: Ctx) -> List[Ob]:
     for fld, tgt in land.items():
         hits = []
         for s in walk_no_nested(mm.f.node):
-            if isinstance(s, ast.Assign) and src(s.value) == f"checkpoint.{fld}":
-                hits += [src(t) for t in s.targets]
-        ok = hits == [tgt]
+            if isinstance(s, (ast.Assign, ast.AnnAssign)) and getattr(s, "value", None) is not None:
+                v2 = s.value
+                branches = [v2.body, v2.orelse] if isinstance(v2, ast.IfExp) else [v2]
+                if any(src(b2) == f"checkpoint.{fld}" for b2 in branches):
+                    hits += [src(t) for t in (s.targets if isinstance(s, ast.Assign) else [s.target])]
+        ok = tgt in hits
         obs.append(ob("FIELDS", f"checkpoint.{fld} is restored into {tgt}", mm.f, mm.f.node, ok,
-                      f"assigned to {hits}" + ("" if ok else f" (expected exactly [{tgt}])"),
+                      f"assigned to {hits}" + ("" if ok else f" (expected {tgt} among them)"),
                       construct=f"{tgt} <- checkpoint.{fld}"))
     return obs
